@@ -94,3 +94,48 @@ fn b8_utf8_encoder_from_start() {
 	kani::cover!(got == 12, "B8 three astral characters");
 	core::mem::forget(e);
 }
+
+/// B9: the byte order mark rule alone, without the byte plumbing of `read`: the characters a fresh Utf8Encoder takes
+/// from its source (`next_char`, called until the end) are the source's characters in order, each once, except that
+/// ONE U+FEFF in front of everything is dropped. A U+FEFF anywhere else - also directly behind the byte order mark -
+/// is data (YAML text may contain ZERO WIDTH NO-BREAK SPACE), and the end / an error of the source is passed on where
+/// it occurred. Driven through `new` and `next_char` only, so it compiles against any reorganisation of the encoder's
+/// private state, and cheap enough for the quick tier (B8, which also runs `read`, is not).
+#[kani::proof]
+#[kani::unwind(8)]
+fn b9_next_char_bom_rule() {
+	let c: [char; 3] = kani::any();
+	let n: usize = kani::any();
+	kani::assume(n <= 3);
+	let mut e = Utf8Encoder::new(Chars3 { c, n, i: 0 });
+	// reference: skip c[0] when it is the mark
+	let skip = if n > 0 && c[0] == '\u{FEFF}' { 1 } else { 0 };
+	let mut k = skip;
+	let mut calls = 0;
+	while calls < 4 {
+		let got = e.next_char();
+		if k < n {
+			match got {
+				Some(Ok(ch)) => assert!(ch == c[k], "B9: characters come through in order, each once; only one leading U+FEFF is dropped"),
+				Some(Err(err)) => {
+					core::mem::forget(err);
+					assert!(false, "B9: no error without a source error");
+				}
+				None => assert!(false, "B9: no character is lost (a U+FEFF that is not the first character is data)"),
+			}
+			k += 1;
+		} else {
+			match got {
+				None => {}
+				Some(r) => {
+					core::mem::forget(r);
+					assert!(false, "B9: nothing is fabricated after the end of the source");
+				}
+			}
+		}
+		calls += 1;
+	}
+	kani::cover!(n == 3 && c[0] == '\u{FEFF}' && c[1] == '\u{FEFF}', "B9 U+FEFF directly behind the byte order mark is data");
+	kani::cover!(n == 3 && c[0] != '\u{FEFF}' && c[2] == '\u{FEFF}', "B9 no mark, U+FEFF later");
+	core::mem::forget(e);
+}
